@@ -909,7 +909,7 @@ func (a *typedArrayObject) deleteStr(name unistring.String, throw bool) bool {
 	idx, ok := strToIntNum(name)
 	if ok {
 		if a.isValidIntegerIndex(idx) {
-			a.val.runtime.typeErrorResult(throw, "Cannot delete property '%d' of %s", idx, a.val.String())
+			a.val.runtime.typeErrorResult(throw, "Cannot delete property '%d' of a TypedArray", idx)
 			return false
 		}
 		return true
@@ -922,7 +922,7 @@ func (a *typedArrayObject) deleteStr(name unistring.String, throw bool) bool {
 
 func (a *typedArrayObject) deleteIdx(idx valueInt, throw bool) bool {
 	if a.viewedArrayBuf.ensureNotDetached(false) && idx >= 0 && int64(idx) < int64(a.length) {
-		a.val.runtime.typeErrorResult(throw, "Cannot delete property '%d' of %s", idx, a.val.String())
+		a.val.runtime.typeErrorResult(throw, "Cannot delete property '%d' of a TypedArray", idx)
 		return false
 	}
 
